@@ -80,7 +80,7 @@ def monitor(chk, props, case, e, rec, orc):
 def run(tier, seed):
     chk = core.Check("C17", "exploration", tier, seed)
     rng = chk.rng("gen")
-    n_gram = {"quick": 36, "thorough": 300}[tier]
+    n_gram = {"quick": 50, "thorough": 300}[tier]
     gk = dict(fallible=0.5, sugar=0.15)
 
     def genf(r):
